@@ -158,6 +158,20 @@ CHECKS = {
              ]},
         ],
     },
+    "C11": {
+        "explanation": "bounded exploration by the symbolic executor of SetCursor/FetchCursor sequences on the real cursor manager, reverse subscription and compacted cursors log, with the publish of the cursor message as a stand-in",
+        "assumptions": ["apiServer.Publish on the cursors stream is a stand-in: append to the cursors partition's real log and commit (the contract of an acknowledged ALL-policy publish)",
+                        "one cursors partition led by this server; leader change over NATS and cache eviction by volume are modelled as cache purge / fresh manager",
+                        "cursor offsets are drawn from {0, 5, 300}; operations are sequential"],
+        "groups": [
+            {"pkg": "./server", "overlay": "server", "pkgname": "server",
+             "harnesses": [
+                 {"name": "VerifC11Cursors", "quick": {"steps": 4}, "thorough": {"steps": 5}, "replay": "interpreted", "max-paths": 3000000,
+                  "covers": ["done", "set", "fetch", "purge", "clean", "pause-resume", "restart", "cleaner-tick"],
+                  "targets": ["cursorManager).SetCursor", "cursorManager).GetCursor", "cursorManager).getLatestCursorOffset", "apiServer).SubscribeInternal", "ReverseReader).ReadMessage"]},
+             ]},
+        ],
+    },
     "C12": {
         "explanation": "bounded symbolic execution of consumerGroup (AddMember/RemoveMember/StreamDeleted/balance) on directly constructed groups with symbolic consumer ids",
         "assumptions": ["member liveness timers do not fire (consumer timeout 1h of virtual time)",
@@ -200,6 +214,21 @@ CHECKS = {
                  {"name": "VerifC17Truncated", "covers": ["done"], "targets": ["LocalEncryptionHandler).decryptData"]},
                  {"name": "VerifC17Tampered", "covers": ["done"], "targets": ["LocalEncryptionHandler).Read"]},
                  {"name": "VerifC17Substituted", "covers": ["done"], "targets": ["LocalEncryptionHandler).Read", "LocalEncryptionHandler).unwrapDEK", "LocalEncryptionHandler).decryptData"]},
+             ]},
+        ],
+    },
+    "C18": {
+        "explanation": "bounded exploration by the symbolic executor of the real activity dispatcher (dispatch/handleRaftLog/publishActivityEvent/marker apply) against a Raft log stand-in, with publish and marker-apply failures, leadership changes and restarts as choices and virtual back-off timers",
+        "assumptions": ["Raft is a stand-in: a log store, a commit index advanced by the harness, and an applyOperation that appends the marker entry and runs the real FSM apply (or fails by choice)",
+                        "apiServer.Publish is a recorder that succeeds or fails by choice; protobuf Marshal of the event is a recorder",
+                        "the Raft log is not truncated by snapshots (after truncation GetLog fails in dispatch: noted in DESIGN as outside this bound)"],
+        "groups": [
+            {"pkg": "./server", "overlay": "server", "pkgname": "server",
+             "harnesses": [
+                 {"name": "VerifC18Activity", "quick": {"ops": 2, "steps": 4, "pubfailures": 1, "raftfailures": 1}, "thorough": {"ops": 3, "steps": 5, "pubfailures": 2, "raftfailures": 1},
+                  "replay": "interpreted", "max-paths": 3000000,
+                  "covers": ["done", "commit", "failover", "restart"],
+                  "targets": ["activityManager).dispatch", "activityManager).handleRaftLog", "activityManager).publishActivityEvent", "computeActivityPublishBackoff"]},
              ]},
         ],
     },
@@ -247,6 +276,10 @@ CHECKS = {
 TECH = "bounded symbolic execution of the real Go code (go/ssa) with z3; counterexamples replayed natively"
 
 META = {
+    "C18": {"text": "Bounded model checking of the implementation by the symbolic executor: a Raft log of event-kind operations, non-event operations and non-command entries is committed step by step while the real dispatcher goroutine runs; publishes and marker applies fail by choice (bounded), leadership is lost and regained, the manager restarts from the recovered marker; back-off timers are virtual. The recorded publish sequence is checked for at-least-once, id = Raft index, commit order of first appearances and head-of-line blocking.",
+            "design_ref": "DESIGN.md §4 C18", "note": "bounds: 2-3 operations, 4-5 steps, 1-2 publish failures, 1 marker failure; concrete-shaped data (exhaustive enumeration of decision vectors); replay by concrete re-execution", "technique": TECH},
+    "C11": {"text": "Bounded model checking of the implementation by the symbolic executor: every sequence of k operations from {SetCursor, FetchCursor (2 cursor ids), cache purge / become leader, compaction of the cursors log, pause+resume (log closed and reopened), restart (fresh cache), a cleaner interval passing (the log's own cleaner loop rolls an aged active segment, then compacts)} on the real cursor manager + reverse subscription + commit log; every fetch is compared with a map model.",
+            "design_ref": "DESIGN.md §4 C11", "note": "bounds: k = 4 (quick) / 5 (thorough), 2 cursor ids, offsets from {0,5,300}; data is concrete-shaped here (the solver decides nothing of substance; the quantifier is covered by exhaustive enumeration of decision vectors); real leader change over NATS outside", "technique": TECH},
     "C07": {"text": "Bounded model checking of the implementation by the symbolic executor: on a controller with a 3-replica partition, every sequence of k events from {leader report, ISR shrink, ISR expand (each by any of 4 ids incl. a non-replica, naming the current or a stale leader/epoch; stale epochs are arbitrary 64-bit values decided by the solver), report-window expiry, controller leadership loss} runs through the real ReportLeader/ShrinkISR/ExpandISR/failover/FSM code; after every event the leadership invariants are asserted against a witness model.",
             "design_ref": "DESIGN.md §4 C07", "note": "bounds: k = 3 (quick) / 4 (thorough) events, one partition with 3 replicas, sequential requests; replay by concrete re-execution (Raft stand-in)", "technique": TECH},
     "C15": {"text": "Symbolic execution of all 16 client API methods of the current source with ACLs on: the policy's answer for the call is a symbolic boolean, back ends are effect recorders, the partition and the consumer group's current subscription are real. On the 'no' side the call must return an error, the effect log must be empty and the existing subscription must still be the active one. The list of methods is fixed in the harness (a new RPC needs a new case).",
